@@ -1,4 +1,5 @@
 import ArgoVerif.Proofs.X86
+import ArgoVerif.Props.SchedCommon
 /-
 Props.C02 (assembly half) — "a ULT resumes with its stack contents, callee-saved registers
 and floating-point control state exactly as it left them, on a 16-byte aligned stack".
@@ -540,5 +541,40 @@ example :
     let s2 := run trashEnv s0 peek_fcontext
     s2.reg .rsp = 0x7000 ∧ s2.reg .r12 = 0xC12 ∧ s2.pc = some 0x401000 ∧
     s2.calls.map (fun c => (c.sp, c.arg)) = [(0x3000, 0x9008)] := by decide
+
+/-! ## Protocol half: one runner at a time, publication only after the context is saved
+
+`Model.Sched`'s event `cb e u k` is the entry of a context-switch callback.  By `fctx_save_before_call_*` above the
+callback of the `*_with_call` routines is called after the old context has been stored, and `fctx_call_on_saved_sp`
+shows it runs on the *new* stack; the controlled-scheduler runs additionally check at every callback that the stack
+pointer is outside the switched-away unit's stack.  So "location `cb`" means "context completely saved". -/
+
+open ArgoVerif.Model.Sched in
+/-- **single runner**: a run slice of u starts on stream e only when u is on no stream (not running, no callback
+pending) — in every state u has one location, so it executes on at most one execution stream -/
+theorem ctx_single_runner (s s' : ArgoVerif.Model.Sched.St) (e : Nat) (u : Nat)
+    (hs : ArgoVerif.Model.Sched.step s (.run e u) = some s') :
+    (∀ e', s.loc u ≠ .running e') ∧ (∀ e', s.loc u ≠ .cb e') ∧ s'.loc u = .running e := by
+  simp only [ArgoVerif.Model.Sched.step, stepRun] at hs
+  cases hl : s.loc u <;> simp only [hl] at hs <;> (repeat' (split at hs)) <;> (try cases hs) <;> simp_all [ArgoVerif.upd]
+
+open ArgoVerif.Model.Sched in
+/-- **publish after save**: every step that makes a unit reachable by another stream — a push to a pool, the BLOCKED
+store that lets a resumer act, the READY store — happens only when the unit is not running: its context has been saved
+(`cb`), or it has never run / is exclusively held by a scheduler / is blocked and resumed -/
+theorem ctx_publish_after_save (s s' : ArgoVerif.Model.Sched.St) (ev : ArgoVerif.Model.Sched.Ev) (u : Nat)
+    (hev : (∃ p, ev = .push p u) ∨ ev = .setSt u .blocked ∨ ev = .setSt u .ready)
+    (hs : ArgoVerif.Model.Sched.step s ev = some s') : ∀ e, s.loc u ≠ .running e := by
+  intro e hl
+  rcases hev with ⟨p, rfl⟩ | rfl | rfl <;>
+    simp only [ArgoVerif.Model.Sched.step, stepPush, stepSetSt, hl, pushable] at hs <;>
+    (repeat' (split at hs)) <;> simp_all
+
+open ArgoVerif.Model.Sched in
+/-- a unit whose state reads BLOCKED is fully suspended in every reachable state: nobody who acts on the BLOCKED state
+(resume, join hand-off, wait-list wake-up) can reach a unit that is still switching -/
+theorem ctx_blocked_means_saved (s : ArgoVerif.Model.Sched.St) (h : ArgoVerif.Model.Sched.machine.Reachable s) (u : Nat)
+    (hb : s.st u = .blocked) : s.loc u = .blocked :=
+  (ArgoVerif.Model.Sched.inv_reachable s h).stBlockedLoc u hb
 
 end ArgoVerif.Props.C02
